@@ -108,6 +108,25 @@ pub fn exec(case: &Value) -> Value {
             vec![("dims", json!([cam.dims.0, cam.dims.1])), ("c00", json!([s(c00.x()), s(c00.y())])), ("c11", json!([s(c11.x()), s(c11.y())])),
                  ("pix", json!([s(scr.x()), s(scr.y())])), ("tbox", json!(tb))]
         }
+        "ocam" => {
+            // an orthographic camera; the builder calls in either order (ord 0: orthographic, then viewport)
+            let rq = ia(&case["rq"]);
+            let (fw, fh) = (gu(case, "fw"), gu(case, "fh"));
+            let (lo, hi, p) = (ia(&case["lo"]), ia(&case["hi"]), ia(&case["p"]));
+            let bx = pt3(lo[0] as f32, lo[1] as f32, lo[2] as f32)..pt3(hi[0] as f32, hi[1] as f32, hi[2] as f32);
+            let vpr = (rq[0] as u32..rq[2] as u32, rq[1] as u32..rq[3] as u32);
+            let cam = if gi(case, "ord") == 0 {
+                Camera::new((fw, fh)).orthographic(bx).viewport(vpr)
+            } else {
+                Camera::new((fw, fh)).viewport(vpr).orthographic(bx)
+            }
+            .mode(Mat4x4::<WorldToView>::identity());
+            let clip = cam.world_to_project().apply(&pt3(p[0] as f32, p[1] as f32, p[2] as f32));
+            let w = clip.0[3];
+            let scr = cam.viewport.apply(&vec3(clip.0[0] / w, clip.0[1] / w, clip.0[2] / w));
+            vec![("dims", json!([cam.dims.0, cam.dims.1])), ("pix", json!([s(scr.x()), s(scr.y())])),
+                 ("q", json!([s(clip.0[0]), s(clip.0[1]), s(clip.0[2]), s(w)]))]
+        }
         "fp" => {
             let (pos, t) = (ia(&case["pos"]), ia(&case["t"]));
             // camera at pos * 2^psc, target at an offset t * 2^-tsc from it (all exactly representable):
@@ -207,7 +226,7 @@ pub fn gen(args: &Args, out: &mut dyn Write) {
                         emit(out, json!({"op": "persp", "c": c, "p": [x, y, z]}));
                     }
                 }
-                for _ in 0..(if thorough { 40 } else { 6 }) {
+                for _ in 0..(if thorough { 400 } else { 6 }) {
                     let (z1, z2) = (rng.range(n, r - 1), 0);
                     let z2 = rng.range(z1 + 1, r).max(z2);
                     let (x, y) = (rng.range(-3, 3), rng.range(-3, 3));
@@ -217,7 +236,7 @@ pub fn gen(args: &Args, out: &mut dyn Write) {
         }
     }
     // orthographic boxes and viewports over small integer ranges
-    for _ in 0..(if thorough { 20_000 } else { 2_000 }) {
+    for _ in 0..(if thorough { 200_000 } else { 2_000 }) {
         let lo: Vec<i64> = (0..3).map(|_| rng.range(-8, 4)).collect();
         let hi: Vec<i64> = lo.iter().map(|l| l + rng.range(1, 12)).collect();
         let p: Vec<i64> = (0..3).map(|i| match rng.below(4) { 0 => lo[i], 1 => hi[i], _ => rng.range(lo[i] - 2, hi[i] + 2) }).collect();
@@ -229,7 +248,7 @@ pub fn gen(args: &Args, out: &mut dyn Write) {
         emit(out, json!({"op": "rect", "r1": [sd(&mut rng), sd(&mut rng), sd(&mut rng), sd(&mut rng)], "r2": [sd(&mut rng), sd(&mut rng), sd(&mut rng), sd(&mut rng)]}));
     }
     // cameras: requested viewports inside, partly outside and wholly outside the frame
-    for _ in 0..(if thorough { 6_000 } else { 600 }) {
+    for _ in 0..(if thorough { 60_000 } else { 600 }) {
         let (fw, fh) = (rng.range(4, 40), rng.range(4, 30));
         let (x0, y0) = (rng.range(0, fw - 1), rng.range(0, fh - 1)); // the intersection is never empty
         let (x1, y1) = (x0 + rng.range(1, 50), y0 + rng.range(1, 40));
@@ -238,11 +257,21 @@ pub fn gen(args: &Args, out: &mut dyn Write) {
         emit(out, json!({"op": "cam", "fw": fw, "fh": fh, "rq": [x0, y0, x1, y1], "fn": fnn, "fd": fd,
                          "p": [rng.range(-z, z), rng.range(-z, z), z]}));
     }
+    // orthographic cameras, builder calls in both orders
+    for i in 0..(if thorough { 6_000 } else { 600 }) {
+        let (fw, fh) = (rng.range(8, 64), rng.range(8, 48));
+        let (x0, y0) = (rng.range(0, fw - 4), rng.range(0, fh - 4));
+        let (x1, y1) = (rng.range(x0 + 2, fw + 6), rng.range(y0 + 2, fh + 6));
+        let lo: Vec<i64> = (0..3).map(|_| rng.range(-9, 2)).collect();
+        let hi: Vec<i64> = (0..3).map(|j| lo[j] + rng.range(1, 12)).collect();
+        let p: Vec<i64> = (0..3).map(|j| rng.range(lo[j], hi[j])).collect();
+        emit(out, json!({"op": "ocam", "fw": fw, "fh": fh, "rq": [x0, y0, x1, y1], "lo": lo, "hi": hi, "p": p, "ord": i % 2}));
+    }
     // first person: Pythagorean look directions (so that distances are integers), all octants, straight up / down
     let dirs: [[i64; 4]; 10] = [[3, 0, 4, 25], [0, 1, 0, 1], [0, -1, 0, 1], [-5, 12, 0, 169], [1, 2, 2, 9], [-2, -1, 2, 9], [2, 3, 6, 49],
                                 [-4, 0, -3, 25], [0, 0, 1, 1], [-1, 0, 0, 1]];
     for d in dirs {
-        for _ in 0..(if thorough { 40 } else { 6 }) {
+        for _ in 0..(if thorough { 400 } else { 6 }) {
             let pos: Vec<i64> = (0..3).map(|_| rng.range(-9, 9)).collect();
             let sc = rng.range(1, 3);
             emit(out, json!({"op": "fp", "pos": pos, "t": [d[0] * sc, d[1] * sc, d[2] * sc], "d2": d[3] * sc * sc,
@@ -256,7 +285,7 @@ pub fn gen(args: &Args, out: &mut dyn Write) {
     let azs: [(i64, i64, i64); 8] = [(3, 4, 5), (-4, 3, 5), (5, -12, 13), (-8, -15, 17), (1, 0, 1), (0, 1, 1), (-1, 0, 1), (0, -1, 1)];
     for (cx, sz, kd) in azs {
         for alt in ["level", "up", "down", "over", "tilt", "lookat"] {
-            for _ in 0..(if thorough { 10 } else { 2 }) {
+            for _ in 0..(if thorough { 60 } else { 2 }) {
                 emit(out, json!({"op": "fpmove", "cx": cx, "sz": sz, "kd": kd, "alt": alt, "dl": [rng.range(-3, 3), rng.range(-3, 3), rng.range(-3, 3)]}));
             }
         }
